@@ -246,7 +246,12 @@ func (r *Runtime) builtinJSON_stringify(call FunctionCall) Value {
 			num = int64(i)
 			isNum = true
 		} else if f, ok := spaceValue.(valueFloat); ok {
-			num = int64(f)
+			// min(10, ToIntegerOrInfinity(space))
+			if f := float64(f); f >= 10 {
+				num = 10
+			} else if f >= 1 {
+				num = int64(f)
+			}
 			isNum = true
 		}
 		if isNum {
